@@ -456,9 +456,9 @@ Definition ser_values (ptag : N) (s : ser) : res (list (option str)) :=
 Definition series_cls_ok (ptag : N) : bool :=
   memN ptag [pt_area; pt_bar; pt_bubble; pt_doughnut; pt_line; pt_pie; pt_radar; pt_scatter].
 
-(** Category label: str of c:v text; an empty c:v has text None and str.__new__(cls, None)
-    is the word None. *)
-Definition pt_label (p : pt) : str := match pt_v p with [] => s_None | v => v end.
+(** Category label: the text of c:v, the empty string for an empty c:v (lxml gives None
+    there and the reader takes [text or the empty string]). *)
+Definition pt_label (p : pt) : str := pt_v p.
 
 (** xChart.cat: c:cat of the first c:ser in document order. *)
 Definition plot_cat (p : plot) : option catx :=
